@@ -108,6 +108,75 @@ def build_harness(r, repo=None, race=False):
     raise Inconclusive("harness does not build against %s in any hook mode:\n%s" % (repo, last[-3000:]))
 
 
+def build_harness_wasm(r):
+    """The same harness compiled for js/wasm (the library's second build configuration); returns the command prefix
+    that runs it under Node with the toolchain's wasm_exec_node.js."""
+    hdir = os.path.join(r.dir, "hw")
+    if not os.path.isdir(hdir):
+        shutil.copytree(HARNESS, hdir, ignore=shutil.ignore_patterns("js", "ssagraph", "*.tmpl"))
+    with open(os.path.join(HARNESS, "go.mod.tmpl")) as f:
+        mod = f.read().replace("@REPO@", REPO)
+    with open(os.path.join(hdir, "go.mod"), "w") as f:
+        f.write(mod)
+    env = go_env()
+    env["GOOS"], env["GOARCH"] = "js", "wasm"
+    binp = os.path.join(r.dir, "harness.wasm")
+    last = ""
+    for tags in ("verif,verif_internal", "verif", ""):
+        cmd = ["go", "build", "-o", binp] + (["-tags", tags] if tags else []) + ["."]
+        rc, out = run(cmd, cwd=hdir, env=env, timeout=900)
+        if rc == 0:
+            break
+        last = out
+    else:
+        raise Inconclusive("harness does not build for js/wasm against %s:\n%s" % (REPO, last[-3000:]))
+    rc, goroot = run(["go", "env", "GOROOT"], cwd=REPO, env=repo_go_env(), timeout=60)
+    for cand in ("lib/wasm/wasm_exec_node.js", "misc/wasm/wasm_exec_node.js"):
+        pth = os.path.join(goroot.strip().splitlines()[-1], cand)
+        if os.path.exists(pth):
+            return ["node", pth, binp]
+    raise Inconclusive("wasm_exec_node.js of the toolchain not found")
+
+
+def wasm_pass(r, scen, own, runner=None, timeout=300, tier=None):
+    """A scenario generator executed in the js/wasm build of the library (harness compiled for js/wasm, run under
+    Node), its trace validated like a native one. A call that never returns stops the whole single-threaded
+    process: the generator announces every call of the wasm-only API on stderr, and a process that stops twice at
+    the same announced call is a hang of that call (C10)."""
+    runner = runner or build_harness_wasm(r)
+    out = os.path.join(r.dir, "tr-wasm-" + scen)
+    cap = []
+    try:
+        g = gen_traces(r, runner, out, prop=scen, capture=cap, timeout=timeout, tier=tier)
+    except Inconclusive:
+        last = [l for l in (cap[0] if cap else "").splitlines() if l.startswith("WAPI-BEGIN ")]
+        if not last or "[timeout]" not in cap[0]:
+            raise
+        cap2 = []
+        try:
+            gen_traces(r, runner, out + "-again", prop=scen, capture=cap2, timeout=timeout, tier=tier)
+            raise Inconclusive("the js/wasm process stopped answering once (at %s) but not a second time" % last[-1])
+        except Inconclusive:
+            last2 = [l for l in (cap2[0] if cap2 else "").splitlines() if l.startswith("WAPI-BEGIN ")]
+            if not last2 or last2[-1] != last[-1] or "[timeout]" not in cap2[0]:
+                raise
+        if "C10" not in own:
+            r.other_props["C10"] = r.other_props.get("C10", 0) + 1
+            return runner
+        scn = last[-1].split(" ", 1)[1]
+        d = os.path.join(ROOT, "replays", r.prop)
+        os.makedirs(d, exist_ok=True)
+        path = os.path.join(d, "wasm-hang-%d.json" % r.seed)
+        with open(path, "w") as fh:
+            json.dump({"property": r.prop, "tier": r.tier, "seed": r.seed, "mode": "wasm-hang", "scenario": scen, "call": scn,
+                       "reason": "no return within %d s (twice) in the js/wasm build" % timeout}, fh, indent=1)
+        r.violations.append({"reason": "operation did not return normally in the js/wasm build: hang at " + scn, "replay": path, "event": {"scn": scn}})
+        return runner
+    r.extra["wasm_build_events_" + scen] = g["events"]
+    judge_traces(r, runner, g["files"] or [], "LibTrace.tla", "LibTrace.cfg", own, genkw={"prop": scen, "timeout": timeout, "tier": tier})
+    return runner
+
+
 # --------------------------------------------------------------------------- TLC
 TLC_JAVA = "-Xmx3g -Xss64m -XX:ParallelGCThreads=2"
 RE_STATES = re.compile(r"(\d[\d,]*) states generated, (\d[\d,]*) distinct states found")
@@ -253,14 +322,16 @@ def read_events(path, ids=None):
     return out
 
 
-def gen_traces(r, binp, outdir, only=None, per_shard=None, env=None, capture=None):
+def gen_traces(r, binp, outdir, only=None, per_shard=None, env=None, capture=None, fresh=False, prop=None, timeout=3000, tier=None):
     os.makedirs(outdir, exist_ok=True)
-    cmd = [binp, "gen", "-prop", r.prop, "-tier", r.tier, "-seed", str(r.seed), "-out", outdir]
+    cmd = (binp if isinstance(binp, list) else [binp]) + ["gen", "-prop", prop or r.prop, "-tier", tier or r.tier, "-seed", str(r.seed), "-out", outdir]
+    if fresh:
+        cmd.append("-fresh")
     if per_shard:
         cmd += ["-per-shard", str(per_shard)]
     if only:
         cmd += ["-only", only]
-    rc, out = run(cmd, cwd=r.dir, env=env or go_env(), timeout=3000)
+    rc, out = run(cmd, cwd=r.dir, env=env or go_env(), timeout=timeout)
     if capture is not None:
         capture.append(out)
     if rc != 0 and not (capture is not None and rc == 66):
@@ -296,14 +367,14 @@ def short(ev):
     return o
 
 
-def write_replay(r, scns, events, reason):
+def write_replay(r, scns, events, reason, genkw=None):
     d = os.path.join(ROOT, "replays", r.prop)
     os.makedirs(d, exist_ok=True)
     h = hashlib.sha1(("|".join(scns) + reason).encode()).hexdigest()[:12]
     p = os.path.join(d, h + ".json")
     with open(p, "w") as f:
         json.dump({"property": r.prop, "tier": r.tier, "seed": r.seed, "scn": scns, "reason": reason,
-                   "events": [short(e) for e in events]}, f, indent=1)
+                   "wasm_scenario": (genkw or {}).get("prop"), "events": [short(e) for e in events]}, f, indent=1)
     return p
 
 
@@ -320,7 +391,16 @@ def lib_trace_check(r, mcs=(), module="LibTrace.tla", cfg="LibTrace.cfg", per_sh
     g = gen_traces(r, binp, os.path.join(r.dir, "tr"), per_shard=per_shard)
     r.samples = [short(e) for e in g.get("samples", [])][:6]
     r.extra.update(g.get("extra", {}))
-    bad, nbad = validate_traces(r, g["files"], module, cfg)
+    # fresh pass: the history-sensitive sequences of the same generator as the first calls of a new process
+    gf = gen_traces(r, binp, os.path.join(r.dir, "tr-fresh"), per_shard=per_shard, fresh=True)
+    r.extra["fresh_pass_events"] = gf["events"]
+    judge_traces(r, binp, (g["files"] or []) + (gf["files"] or []), module, cfg, own)
+
+
+def judge_traces(r, binp, files, module, cfg, own, genkw=None):
+    """TLC validates the trace files; rejections owned by this check are reproduced in a fresh process (same
+    generator, same arguments, only the scenarios concerned) before they count."""
+    bad, nbad = validate_traces(r, files, module, cfg)
     r.nontrivial = sum(v for k, v in r.classes.items() if k in ("value", "error", "errorNV", "accept", "refuse", "row", "ok"))
     if nbad.get("INC", 0):
         raise Inconclusive("%d event(s) inconclusive (oracle table miss / bad hint): %s"
@@ -346,6 +426,10 @@ def lib_trace_check(r, mcs=(), module="LibTrace.tla", cfg="LibTrace.cfg", per_sh
         scns = [key]
         if ev.get("grp", 0):
             scns = [e["scn"] for e in cache[b["file"]].values() if e.get("grp") == ev["grp"] and e["id"] <= ev["id"]]
+        elif "/gated" in key:
+            # a round of concurrent calls meeting at a gate: which of them shows the effect varies, the round is the unit
+            pre = key.rsplit("/", 1)[0] + "/"
+            scns = [e["scn"] for e in cache[b["file"]].values() if e["scn"].startswith(pre)]
         todo.append((b, ev, scns))
     reported = 0
     for b, ev, scns in todo:
@@ -356,8 +440,8 @@ def lib_trace_check(r, mcs=(), module="LibTrace.tla", cfg="LibTrace.cfg", per_sh
             continue
         if reported >= 5:
             continue
-        if reproduce(r, binp, scns, b, module, cfg):
-            path = write_replay(r, scns, [ev], b["r"])
+        if reproduce(r, binp, scns, b, module, cfg, genkw):
+            path = write_replay(r, scns, [ev], b["r"], genkw)
             sev = short(ev)
             if isinstance(b.get("want"), dict) and b["want"].get("val") is not None:
                 sev["spec_expects"] = short({"val": b["want"]["val"]}).get("val", "")
@@ -366,12 +450,12 @@ def lib_trace_check(r, mcs=(), module="LibTrace.tla", cfg="LibTrace.cfg", per_sh
         else:
             r.notes.append("rejection of %s did not reproduce in a fresh process: %s" % (ev["scn"], b["r"]))
             raise Inconclusive("a rejection did not reproduce: %s %s" % (ev["scn"], b["r"]))
-    r.extra["rejected_events_total"] = total_mine
+    r.extra["rejected_events_total"] = r.extra.get("rejected_events_total", 0) + total_mine
 
 
-def reproduce(r, binp, scns, b, module, cfg):
+def reproduce(r, binp, scns, b, module, cfg, genkw=None):
     d = os.path.join(r.dir, "repro-%d" % len(os.listdir(r.dir)))
-    g = gen_traces(r, binp, d, only="\x1f".join(scns))
+    g = gen_traces(r, binp, d, only="\x1f".join(scns), fresh=scns[0].startswith("F:"), **(genkw or {}))
     if g["events"] == 0:
         return False
     bad, nbad = [], {}
@@ -427,9 +511,18 @@ RULES = {}
 
 
 # --------------------------------------------------------------------------- registry of checks
-def chk_lib(mcs=(), per_shard=None):
+def chk_lib(mcs=(), per_shard=None, wasm=(), wasm_thorough=True):
+    """wasm: scenario generators additionally executed in the js/wasm build of the library in every tier; in the
+    thorough tier the property's own generator runs there too."""
     def f(r):
         lib_trace_check(r, mcs=mcs, per_shard=per_shard)
+        scens = list(wasm)
+        if wasm_thorough and r.tier != "quick" and r.prop not in scens:
+            scens.append(r.prop)
+        runner = None
+        for sc in scens:
+            # the property's own generator runs at its quick size there (the native pass carries the thorough bounds)
+            runner = wasm_pass(r, sc, {r.prop}, runner=runner, timeout=120 if sc == "WAPI" else 3000, tier=None if sc == "WAPI" else "quick")
     return f
 
 
@@ -497,8 +590,14 @@ def main(argv):
 
 
 def replay_lib(r, rp):
-    binp = build_harness(r)
     b = {"p": r.prop}
+    if rp.get("mode") == "wasm-hang":
+        wasm_pass(r, rp["scenario"], {r.prop})
+        return bool(r.violations)
+    if rp.get("wasm_scenario"):
+        runner = build_harness_wasm(r)
+        return reproduce(r, runner, rp["scn"], b, "LibTrace.tla", "LibTrace.cfg", {"prop": rp["wasm_scenario"], "timeout": 300})
+    binp = build_harness(r)
     return reproduce(r, binp, rp["scn"], b, "LibTrace.tla", "LibTrace.cfg")
 
 
